@@ -369,7 +369,18 @@ func (n *normalizer) expr(e ast.Expr, at *Point) string {
 		}
 		return id + "(" + strings.Join(args, ",") + ")"
 	case *ast.IndexExpr:
-		return n.expr(x.X, at) + "[" + n.expr(x.Index, at) + "]"
+		// xs[i] with i the key of a range over xs is the element of that
+		// iteration: the same normal form as the range value
+		base, idx := n.expr(x.X, at), n.expr(x.Index, at)
+		if idx == "rangekey("+base+")" {
+			if t := n.f.Info().TypeOf(x.X); t != nil {
+				switch t.Underlying().(type) {
+				case *types.Slice, *types.Array:
+					return "rangeval(" + base + ")"
+				}
+			}
+		}
+		return base + "[" + idx + "]"
 	case *ast.SliceExpr:
 		part := func(e ast.Expr) string {
 			if e == nil {
@@ -387,6 +398,13 @@ func (n *normalizer) expr(e ast.Expr, at *Point) string {
 	case *ast.UnaryExpr:
 		return x.Op.String() + n.expr(x.X, at)
 	case *ast.BinaryExpr:
+		if str, empty, ok := StrLenTest(n.f, x); ok {
+			op := " == "
+			if !empty {
+				op = " != "
+			}
+			return "(" + n.expr(str, at) + op + "\"\")"
+		}
 		a, b := n.expr(x.X, at), n.expr(x.Y, at)
 		if x.Op == token.EQL || x.Op == token.NEQ {
 			// == and != are symmetric: print the constant-like side second
